@@ -36,10 +36,7 @@ Proof.
   intros k cid text Hk (H1 & H2 & H3). unfold cell_valid, F.
   do 5 (destruct k as [|k]; [ lazy; reflexivity | ]).
   destruct k as [|k]; [ | exfalso; lia ].
-  Opaque pat_match Nat.leb List.length.
-  lazy.
-  Transparent pat_match Nat.leb List.length.
-  rewrite H1, H2, H3. reflexivity.
+  exact (marker_always_valid_5 true cid text (conj H1 (conj H2 H3))).
 Qed.
 
 (* what the generated policy gives, in one statement that follows the code *)
@@ -53,9 +50,7 @@ Definition marker_statement (pol : marker_id_policy) : Prop :=
   end.
 Lemma marker_statement_holds : forall pol, marker_statement pol.
 Proof.
-  destruct pol; simpl.
-  - split; [ apply marker_always_valid_5 | apply marker_always_invalid_pre5 ].
-  - apply marker_iff_valid.
+  destruct pol; [ exact (conj marker_always_valid_5 marker_always_invalid_pre5) | exact marker_iff_valid ].
 Qed.
 
 (* the hypothesis id_ok is satisfiable *)
@@ -174,7 +169,8 @@ Lemma attachment_rename_valid : forall k n att key local remote, k <= 5 ->
 Proof.
   intros k n att key local remote Hk Hv Hl Hr.
   unfold attachments_schema, ref in *.
-  rewrite (validate_ref _ _ _ _ _ (att_def_is k Hk)) in *.
+  rewrite (validate_ref _ _ _ _ _ (att_def_is k Hk)) in Hv.
+  rewrite (validate_ref _ _ _ _ _ (att_def_is k Hk)).
   unfold rename_attachments, att_def in *.
   assert (E : forall v, validate (nb_defs k) n mimebundle_schema v = Some true ->
               forall key', Forall (kw_ok_for_set (nb_defs k) n key' v) [SType [TObj]; SProps [] [(PAny, mimebundle_schema)] None]).
@@ -193,13 +189,20 @@ Lemma similar_insert_refuted_dict :
   all_valid 5 cell_schema [JObj (wit_code "cell1" "x = 1"); JObj (wit_code "cell2" "x = 2")] = true /\
   exists c, similar_insert_cell_with SimIdDict (wit_code "cell1" "x = 1") (wit_code "cell2" "x = 2") [k_source; k_id] (of_ascii "<<< x = 1 === x = 2 >>>") = Some c /\
             validate (nb_defs 5) F cell_schema c = Some false.
-Proof. split; [ vm_compute; reflexivity | eexists; split; vm_compute; reflexivity ]. Qed.
+Proof.
+  split; [ vm_compute; reflexivity | ].
+  exists (match similar_insert_cell_with SimIdDict (wit_code "cell1" "x = 1") (wit_code "cell2" "x = 2") [k_source; k_id] (of_ascii "<<< x = 1 === x = 2 >>>") with Some c => c | None => JNull end).
+  split; vm_compute; reflexivity.
+Qed.
 
 (* reviewed fix (keep the local id): the same witness gives a valid cell *)
 Lemma similar_insert_local_example :
   exists c, similar_insert_cell_with SimIdLocal (wit_code "cell1" "x = 1") (wit_code "cell2" "x = 2") [k_source; k_id] (of_ascii "<<< x = 1 === x = 2 >>>") = Some c /\
             validate (nb_defs 5) F cell_schema c = Some true.
-Proof. eexists; split; vm_compute; reflexivity. Qed.
+Proof.
+  exists (match similar_insert_cell_with SimIdLocal (wit_code "cell1" "x = 1") (wit_code "cell2" "x = 2") [k_source; k_id] (of_ascii "<<< x = 1 === x = 2 >>>") with Some c => c | None => JNull end).
+  split; vm_compute; reflexivity.
+Qed.
 
 (* every value the similar-insert builder writes for a conflicting key is valid at that key's position of every cell
    type that has the key, given that the local value was (reviewed fix; with the pinned SimIdDict the `id` case fails) *)
@@ -251,7 +254,22 @@ Definition similar_statement (pol : similar_id_policy) : Prop :=
   end.
 Lemma similar_statement_holds : forall pol, similar_statement pol.
 Proof.
-  destruct pol; simpl.
-  - split; [ exact similar_insert_refuted_dict | exact similar_value_id_dict_invalid ].
-  - exact similar_value_valid_local.
+  destruct pol; [ exact (conj similar_insert_refuted_dict similar_value_id_dict_invalid) | exact similar_value_valid_local ].
+Qed.
+
+(* ---------- existential forms (witnesses replayed on the implementation by the check) ---------- *)
+Lemma marker_cell_refuted_always :
+  exists k w cid text, k < 5 /\ id_ok cid /\
+    validate (nb_defs k) F cell_schema (cell_marker_with MarkerIdAlways true w cid text) = Some false.
+Proof.
+  exists 4, true, (of_ascii "a4a92a44"), (of_ascii "<<<<<<< local").
+  split; [ lia | ]. split; [ exact id_ok_example | ]. apply marker_always_invalid_pre5. lia.
+Qed.
+
+Lemma inline_cells_refuted_always_ex :
+  exists k ids base lvals rvals, k < 5 /\ all_valid k cell_schema (base ++ lvals ++ rvals) = true /\
+    all_valid k cell_schema (make_inline_cell_conflict_with MarkerIdAlways true ids base lvals rvals 0 0 0) = false.
+Proof.
+  exists 4, wit_ids, [], [wit_cell "local"], [wit_cell "remote"].
+  split; [ lia | ]. split; vm_compute; reflexivity.
 Qed.
